@@ -34,3 +34,11 @@ package p2p
 //@   ensures dialed: (err == nil && dialedAddr != nil) ==> PubKeyToID(secretConn.remPubKey) == dialedAddr.ID
 //@   ensures reported: err == nil ==> PubKeyToID(secretConn.remPubKey) == imethod(nodeInfo, ID)
 //@   ensures notself: err == nil ==> imethod(nodeInfo, ID) != imethod(mt.nodeInfo, ID)
+
+// ASSUMED frame (used by the reactors' checks): dropping a peer does not modify blocks, commits, validator sets or
+// states (nothing of packages types and state).
+//@ import types github.com/tendermint/tendermint/types
+//@ import sm github.com/tendermint/tendermint/state
+//@ func Switch.StopPeerForError
+//@   trusted
+//@   assigns except(types, sm)
